@@ -52,10 +52,10 @@ Definition check_line (bs : N) (f : file) (fo : N) (r : option (N * N * N * N * 
   | _, _ => 1
   end.
 
-Definition sysline_agrees (bs : N) (f : file) (sl : sysline) (ib ie inl : N) (idt : Z) (ih : string) : bool :=
+Definition sysline_agrees (bs : N) (f : file) (sl : sysline) (ib ie inln : N) (idt : Z) (ih : string) : bool :=
   match sysline_fo_begin bs sl, sysline_fo_end bs sl with
   | Some b, Some e =>
-      (b =? ib) && (e =? ie) && (lenN (snd sl) =? inl) && (Z.eqb (fst sl) idt)
+      (b =? ib) && (e =? ie) && (lenN (snd sl) =? inln) && (Z.eqb (fst sl) idt)
       && beqb (sysline_bytes bs f sl) (unhex ih)
   | _, _ => false
   end.
@@ -64,8 +64,8 @@ Definition check_sysline (dated : list N -> option Z) (bs : N) (f : file) (fo : 
            (r : option (N * N * N * N * Z * string)) : N :=
   match find_sysline_m dated bs f fo, r with
   | Done, None => 0
-  | Found (fo_next, sl), Some (ifo, ib, ie, inl, idt, ih) =>
-      if (fo_next =? ifo) && sysline_agrees bs f sl ib ie inl idt ih then 0 else 1
+  | Found (fo_next, sl), Some (ifo, ib, ie, inln, idt, ih) =>
+      if (fo_next =? ifo) && sysline_agrees bs f sl ib ie inln idt ih then 0 else 1
   | OutOfFuel, _ => 2
   | Panic, _ => 2
   | _, _ => 1
@@ -74,8 +74,8 @@ Definition check_sysline (dated : list N -> option Z) (bs : N) (f : file) (fo : 
 Fixpoint stream_agrees (bs : N) (f : file) (sls : list sysline) (r : list (N * N * N * Z * string)) : bool :=
   match sls, r with
   | [], [] => true
-  | sl :: sls', (ib, ie, inl, idt, ih) :: r' =>
-      sysline_agrees bs f sl ib ie inl idt ih && stream_agrees bs f sls' r'
+  | sl :: sls', (ib, ie, inln, idt, ih) :: r' =>
+      sysline_agrees bs f sl ib ie inln idt ih && stream_agrees bs f sls' r'
   | _, _ => false
   end.
 
@@ -149,3 +149,15 @@ Definition spec_find_sysline_bad (cs : list (string * list (string * Z) * N * op
         if (n =? n') && (b =? b') && Z.eqb (fst g) t && beqb (group_bytes g) (unhex h) then [] else [(i, 1)]
     | _, _ => [(i, 1)]
     end) (index_from 0 cs).
+
+(* ---------------------------------------------------------------- the acceptance gate *)
+From S4.Model Require Import Gate.
+
+(* B for the gate model: (bs, file hex, table, FileProcessingResult code of
+   process_stage1_blockzero_analysis); numbering = Gate.gate_code *)
+Definition gate_bad (cs : list (N * string * list (string * Z) * N)) : list (N * N) :=
+  flat_map (fun ic =>
+    let '(i, (bs, fh, tab, impl)) := ic in
+    let m := gate_code (gate (dated_tab tab) bs (unhex fh)) in
+    if m =? impl then [] else [(i, m)])
+    (index_from 0 cs).
